@@ -299,6 +299,16 @@ def register(reg):
         def loop_invariant(self, c, ordinal):
             g = self._gen(c)
             if g is None:
+                import ast as _ast
+
+                fn = c.interp.fi.node
+                nonlocal_next = any(isinstance(n, _ast.Call) and isinstance(n.func, _ast.Name) and n.func.id == "next" and n.args
+                                    and not isinstance(n.args[0], _ast.Name) for n in _ast.walk(fn))
+                if nonlocal_next:
+                    # pauses drawn from a generator that outlives this call: whether they are 0, 0.5, 1, ... depends
+                    # on how often _connect ran on this object before - call history these contracts do not track.
+                    # Undecidable here (checker exit 3), not a refutation.
+                    raise Unsupported("_connect draws its pauses from a generator that is not local to the call: the pause sequence depends on the call history (not tracked)")
                 return [("delays_is_the_backoff_generator", ("C20",), False)]
             k = F(c, g, "Backoff.k")
             rl = self._retries_left(c)
